@@ -290,7 +290,14 @@ class C02Run(object):
         try:
             n = len(data) if full_len is None else full_len
             head = ("POST / HTTP/1.0\r\nContent-Type: application/json-rpc\r\nContent-Length: %d\r\n\r\n" % n).encode()
-            sock.sendall(head + data)
+            if p.get("pause"):
+                # a slow peer: headers now, the body some seconds later
+                sock.sendall(head)
+                self.s.fault("peer_pauses_mid_request")
+                self.s.sleep(p["pause"])
+                sock.sendall(data)
+            else:
+                sock.sendall(head + data)
             if full_len is not None:
                 self.s.fault("sender_died_mid_body")
                 sock.shutdown(socket.SHUT_WR)
@@ -418,7 +425,7 @@ class C02Scenario(object):
             for i in range(0, len(dm), self.BATCH):
                 server = ["plain", "dispatcher", "pooled", "dispatcher"][k % 4]
                 self.enumerated.append({"server": server, "version": [2.0, 1.0][(k // 4) % 2], "jsonclass": (k // 8) % 2 == 0,
-                                        "dispatch": "instance" if k % 5 == 4 else "default", "fail_kind": k % 9 if k % 2 else 0, "npool": k % 7 == 3,
+                                        "dispatch": "instance" if k % 5 == 4 else "default", "fail_kind": k % 9 if k % 2 else 0, "npool": k % 7 == 3, "pause": [0, 0, 0, 7.0, 0, 30.0][k % 6], "debug_log": k % 5 == 2,
                                         "base": base, "damage": dm[i:i + self.BATCH]})
                 k += 1
         self.must_cover = len(self.enumerated)
@@ -452,12 +459,18 @@ class C02Scenario(object):
         rng.shuffle(dm)
         return {"server": rng.choice(["plain", "pooled", "dispatcher"]), "version": rng.choice([2.0, 1.0]),
                 "jsonclass": rng.random() < 0.7, "dispatch": rng.choice(["default", "default", "instance"]),
-                "fail_kind": rng.choice([0, 0] + list(range(9))), "npool": rng.random() < 0.2, "base": base, "damage": dm[:self.BATCH]}
+                "fail_kind": rng.choice([0, 0] + list(range(9))), "npool": rng.random() < 0.2,
+                "pause": rng.choice([0, 0, 0, 2.0, 7.0, 30.0, 120.0]), "debug_log": rng.random() < 0.25, "base": base, "damage": dm[:self.BATCH]}
 
     def run(self, program, decider, chooser=None):
         s = core.Sched(decider, step_cap=600000, horizon=8192.0, chooser=chooser)
         run = C02Run(program, s)
-        verdict = s.run(run.root)
+        with env.debug_logging(program.get("debug_log")):
+            verdict = s.run(run.root)
+        if program.get("debug_log"):
+            s.probes["library_logging_at_debug_level"] = 1
+        if program.get("pause") and program["server"] != "dispatcher":
+            s.probes["request_with_a_pause_of_seconds_inside"] = 1
         viol, judged = analyse_c02(program, s, run, verdict)
         p = dict(s.probes)
         p["server_" + program["server"]] = 1
